@@ -57,4 +57,19 @@ fn main() {
     let t = T { v: vec![1, 0xff, 7] };
     for (i, j) in [(0usize, 2usize), (0, 1), (2, 9), (9, 0)] { println!("sum2 {i} {j}: {:?}", t.sum2(i, j)); }
     for (o, al) in [(0usize, 4usize), (5, 4), (13, 8), (usize::MAX - 2, 8)] { println!("pads {o} {al}: {:?}", two_pads(o, al)); }
+    main2();
+}
+// 5. tail-position call: the helper's `?` / early `return Ok(..)` keep their meaning when reduced at the end of the caller
+fn find_first(v: &[u8], want: u8, limit: usize) -> Result<Option<usize>, ParseError> {
+    if limit == 0 { return Ok(None); }
+    for (i, x) in v.iter().enumerate() { if i >= limit { return Err(ParseError::Short((i, limit))); } if *x == want { return Ok(Some(i)); } }
+    let n = sub_checked(v.len(), limit)?;
+    Ok(if n == 0 { None } else { Some(usize::MAX) })
+}
+fn first_seven(v: &[u8]) -> Result<Option<usize>, ParseError> {
+    let limit = v.len().min(4);
+    find_first(v, 7, limit)
+}
+pub fn main2() {
+    for v in [&[1u8, 7, 3][..], &[1, 2, 3, 4, 7], &[], &[9, 9, 9, 9]] { println!("first_seven {v:?}: {:?}", first_seven(v)); }
 }
